@@ -88,7 +88,7 @@ def run_model(case, drv) -> Outcome:
         tr, scal, delay = (float(torch.as_tensor(v)) for v in (rng.uniform(0.005, 0.02), rng.choice([1.0, -1.0, 0.5]), rng.uniform(0.0, 0.1)))
         op = MM.TransientSteadyStateWithPreparation(t, tr, scal, delay)
         params = (m0, t1, fa)
-        fn, dfns = 'tss', None
+        fn, dfns = 'tss', ('tss_dm0', 'tss_dt1', 'tss_dalpha')
         argf = lambda idx: [m0[idx[1:]], t1[idx[1:]], fa[idx[1:]], tb(idx), tr, scal, delay]  # noqa: E731
     elif name == 'WASABI':
         b0, rb1, c, d = P(-30, 30), P(0.7, 1.3), P(0.8, 1.2), P(1.0, 2.0)
@@ -97,7 +97,7 @@ def run_model(case, drv) -> Outcome:
         tp, b1nom, gamma = (float(torch.as_tensor(v)) for v in (0.005, 3.7, 42.5764))
         op = MM.WASABI(offs, tp, b1nom, gamma)
         params = (b0, rb1, c, d)
-        fn, dfns = 'wasabi', None
+        fn, dfns = 'wasabi', ('wasabi_db0', 'wasabi_drb1', 'wasabi_dc', 'wasabi_dd')
         argf = lambda idx: [b0[idx[1:]], rb1[idx[1:]], c[idx[1:]], d[idx[1:]], tb(idx), tp, b1nom, gamma]  # noqa: E731
     else:
         b0, rb1, t1 = P(-30, 30), P(0.7, 1.3), P(0.5, 2.0)
@@ -107,7 +107,7 @@ def run_model(case, drv) -> Outcome:
         tp, b1nom, gamma = (float(torch.as_tensor(v)) for v in (0.005, 3.75, 42.5764))
         op = MM.WASABITI(offs, trec, tp, b1nom, gamma)
         params = (b0, rb1, t1)
-        fn, dfns = 'wasabiti', None
+        fn, dfns = 'wasabiti', ('wasabiti_db0', 'wasabiti_drb1', 'wasabiti_dt1')
         argf = lambda idx: [b0[idx[1:]], rb1[idx[1:]], t1[idx[1:]], tb(idx), (trec[idx] if case['per_voxel_time'] else trec[idx[0]]), tp, b1nom, gamma]  # noqa: E731
     st, out = call(lambda: op(*params)[0])
     if st != 'ok':
